@@ -100,14 +100,27 @@ func (in *symInput) state(l *lex.Lexer) lexState {
 	return lexState{Pos: in.sym(st.Pos), Start: in.sym(st.Start), AtEOF: st.AtEOF, Len: len(in.syms)}
 }
 
-func (in *symInput) call(l *lex.Lexer, peek bool) lexCall {
-	c := lexCall{C: "next", B: in.state(l)}
+func (in *symInput) call(l *lex.Lexer, peek bool) (c lexCall) {
+	c = lexCall{C: "next", B: in.state(l)}
 	var t lex.Token
-	if peek {
-		c.C = "peek"
-		t = l.Peek()
-	} else {
-		t = l.Next()
+	panicked := false
+	func() {
+		defer func() {
+			if p := recover(); p != nil {
+				panicked = true
+			}
+		}()
+		if peek {
+			c.C = "peek"
+			t = l.Peek()
+		} else {
+			t = l.Next()
+		}
+	}()
+	if panicked { // no token at all: a type no clause of the specification accepts
+		c.A = c.B
+		c.Typ, c.S, c.E = "PANIC", -1, -1
+		return c
 	}
 	c.A = in.state(l)
 	c.Typ = lexTypName(t.Typ)
@@ -252,6 +265,7 @@ func wsVariants(r *recorder, in *symInput, rng interface{ Intn(int) int }) []map
 	}
 	var spans []span
 	l := lex.Lex(in.text)
+	defer func() { recover() }()
 	for i := 0; i <= len(in.text)+1; i++ {
 		t := l.Next()
 		if t.Typ == lex.TEOF || t.Typ == lex.TErr {
